@@ -162,7 +162,8 @@ CLAIMED = {
        'link callback incl. respawn), so every schedule of those steps is finite (progress_runs_are_bounded), and a state with none of them '
        'enabled has an empty queue, no busy client and every attempted request answered (stuck_means_all_answered). Tied to the code by replaying, label by label, the traces of the real RelayPool + SmtpRelayClient (scripted gated SMTP '
        'peers on socketpairs) and HttpRelay + HttpRelayClient (gated loopback HTTP peer) through the model: every observed label must be '
-       'enabled and the idle flags, queue and answered set must agree at every observation point; BlockingDeque by random operation sequences.',
+       'enabled and the idle flags, queue and answered set must agree at every observation point; BlockingDeque by random operation sequences. '
+       'What is on a reused connection (Model/RelaySession.lean: the commands SmtpRelayClient / LmtpRelayClient write for one delivery and for several over one connection, for every number of recipients and every peer behaviour, PIPELINING or not): failed_transaction_is_reset (a delivery that leaves the connection alive ended with RSET, or with message data that was accepted), one_message_at_a_time (commands of different messages never interleave; every MAIL but the first comes directly after RSET or message data), content_only_after_acceptance (message data is written only after the sender, a recipient and DATA were accepted); tied to the code by comparing the commands each scripted peer of the C11 campaign saw with the model fed the same answers (incl. two messages per connection).',
   ref='6/C19', technique='Lean 4 proof (inductive invariant of the pool transition system over all interleavings; BlockingDeque invariant) + trace-replay correspondence vs real RelayPool/SmtpRelayClient/HttpRelayClient',
   note='Partial: termination assumes finitely many idle-timer and connection-fault events; per-connection protocol discipline is monitored, not proved.'),
  'C12': dict(
